@@ -2,7 +2,7 @@
    inputs to this function (extracted to OCaml) and to the JAX implementation. *)
 From Coq Require Import ZArith QArith Qcanon List Bool.
 From EXV Require Import Base.Scalar Base.FieldLemmas Base.Cplx Exec.Codec.
-From EXV Require Import Utils.Rollout Gen.ETDRK Gen.Guards.
+From EXV Require Import Utils.Rollout Gen.ETDRK Gen.Guards Spectral.Symbols Gen.GenericUtils.
 Import ListNotations.
 Local Open Scope Z_scope.
 
@@ -133,11 +133,74 @@ Definition run_c20 (sub : Z) (a : list Q) : list Q :=
   | _ => []
   end.
 
+(* ---- C01/C13: linear symbols at one mode, conversion functions ---- *)
+Definition cr (q : Q) : CQ := mkcx (qqc q) (qqc 0).          (* real number as a complex *)
+Definition crs (l : list Q) : list CQ := map cr l.
+Definition ciQ : CQ := @ci QcOps.
+(* args: cls D s k_1..k_D params... *)
+Definition run_sym (a : list Q) : list Q :=
+  let cls := qz (getq a 0) in let D := qn (getq a 1) in
+  let s := cr (getq a 2) in
+  let k := map qz (firstn D (skipn 3 a)) in
+  let p := skipn (3 + D) a in
+  let d := dop CQ ciQ s k in
+  let g i := cr (getq p i) in
+  let b i := qb (getq p i) in
+  let rows (l : list Q) := map crs (chunks D D l) in
+  put_cx [
+    match cls with
+    | 1 => sym_advection CQ (crs (firstn D p)) d
+    | 2 => sym_diffusion CQ (rows p) d
+    | 3 => sym_advection_diffusion CQ (crs (firstn D p)) (rows (skipn D p)) d
+    | 4 => sym_dispersion CQ (b 0%nat) (crs (firstn D (skipn 1 p))) d
+    | 5 => sym_hyper_diffusion CQ (b 0%nat) (g 1%nat) d
+    | 6 => sym_burgers CQ (g 0%nat) d
+    | 7 => sym_kdv CQ (b 0%nat) (b 1%nat) (g 2%nat) (g 3%nat) (g 4%nat) d
+    | 8 => sym_ks CQ (g 0%nat) (g 1%nat) d
+    | 9 => sym_navier_stokes CQ (g 0%nat) (g 1%nat) d
+    | 10 => sym_allen_cahn CQ (g 0%nat) (g 1%nat) d
+    | 11 => sym_fisher CQ (g 0%nat) (g 1%nat) d
+    | 12 => sym_cahn_hilliard CQ (g 0%nat) (g 1%nat) (g 2%nat) d
+    | 13 => sym_gray_scott CQ (g 0%nat) (g 1%nat) (qn (getq p 2)) d
+    | 14 => sym_swift_hohenberg CQ (g 0%nat) (g 1%nat) d
+    | _ => poly_sym CQ (crs p) d
+    end ].
+
+Definition qcs (l : list Q) : list QcOps := map qqc l.
+Definition unqcs (l : list QcOps) : list Q := map qcq l.
+(* args: fid x y [z] payload...  (scalars first: L dt  or  D N [M]) *)
+Definition run_conv (a : list Q) : list Q :=
+  let fid := qz (getq a 0) in
+  let x := qqc (getq a 1) in let y := qqc (getq a 2) in let z := qqc (getq a 3) in
+  let l2 := qcs (skipn 3 a) in let l3 := qcs (skipn 4 a) in
+  let s2 := qqc (getq a 3) in let s3 := qqc (getq a 4) in
+  match fid with
+  | 1 => unqcs (normalize_coefficients QcOps x y l2)
+  | 2 => unqcs (denormalize_coefficients QcOps x y l2)
+  | 3 => [qcq (normalize_convection_scale QcOps x y s2)]
+  | 4 => [qcq (denormalize_convection_scale QcOps x y s2)]
+  | 5 => [qcq (normalize_gradient_norm_scale QcOps x y s2)]
+  | 6 => [qcq (denormalize_gradient_norm_scale QcOps x y s2)]
+  | 7 => unqcs (normalize_polynomial_scales QcOps x y l2)
+  | 8 => unqcs (denormalize_polynomial_scales QcOps x y l2)
+  | 9 => unqcs (reduce_normalized_coefficients_to_difficulty QcOps x y l2)
+  | 10 => unqcs (extract_normalized_coefficients_from_difficulty QcOps x y l2)
+  | 11 => [qcq (reduce_normalized_convection_scale_to_difficulty QcOps x y z s3)]
+  | 12 => [qcq (extract_normalized_convection_scale_from_difficulty QcOps x y z s3)]
+  | 13 => [qcq (reduce_normalized_gradient_norm_scale_to_difficulty QcOps x y z s3)]
+  | 14 => [qcq (extract_normalized_gradient_norm_scale_from_difficulty QcOps x y z s3)]
+  | 15 => unqcs (reduce_normalized_nonlinear_scales_to_difficulty QcOps x y z l3)
+  | 16 => unqcs (extract_normalized_nonlinear_scales_from_difficulty QcOps x y z l3)
+  | _ => []
+  end.
+
 Definition run (id : Z) (a : list Q) : list Q :=
   let '(prop, sub) := Z.div_eucl id 100 in
   match prop with
   | 14 => run_c14 sub a
   | 2 => run_c02 sub a
   | 20 => run_c20 sub a
+  | 1 => match sub with 1 => run_sym a | _ => [] end
+  | 13 => match sub with 1 => run_conv a | _ => [] end
   | _ => []
   end.
